@@ -30,6 +30,9 @@ CLAIMED["C08"] = ("fault_enumeration", "fail-the-k-th-tracked-allocation (hook H
 CLAIMED["C20"] = ("exploration", "2-3 caller threads on a shared image under shuttle's seeded random and PCT schedulers (hook H3), with and without an injected fault, against a sequential reference",
     "Seeded schedule search (random + PCT) over the synchronisation points of the render-handle protocol with 2-3 callers and optional background tasks; deadlock, lost wake-up (spurious error), disagreement with the sequential result and concurrent execution of one frame are violations. Sampling, not enumeration.",
     "Only shuttle-owned primitives are scheduling points. Known finding F5 (reset() of an evicted base under a concurrent caller) is reported as KNOWN-FINDING.")
+CLAIMED["C06"] = ("exploration", "seeded histories of region-of-interest requests and renders on one long-lived decoder (state carried across requests) against a fresh full render",
+    "Histories of 4-24 region requests / renders on one image per generated stream; each render compared with the rectangle of a fresh decoder's full render within 1e-6. The history dimension (caches and render handles surviving across requests) is what the simulation adds; inputs and rectangles are sampled.",
+    "Self-consistency oracle. Modular only. Known findings F15/F14b are reported as KNOWN-FINDING.")
 NOT_APPLICABLE = {}
 
 def main():
